@@ -9,7 +9,8 @@
    [env_nonneg]) are defined in Codec/TotalModel.v.                                          *)
 From Coq Require Import ZArith List Ascii Bool.
 From Cspuz Require Import Lib.PyErr Codec.Comb Codec.CombWf Codec.Yajilin Codec.Puzzles
-  Codec.TotalModel Codec.TotalLeaf Codec.TotalRooms Codec.Total Codec.TotalDims Codec.TotalRedecode Codec.TotalCodecs Gen.Codecs.
+  Codec.TotalModel Codec.TotalLeaf Codec.TotalRooms Codec.Total Codec.TotalDims Codec.TotalRedecode Codec.TotalCodecs
+  Codec.TotalReencLeaf Codec.TotalReenc Codec.TotalReencRooms Codec.TotalReencCodecs Codec.TotalReencYajilin Codec.TotalReencWitness Gen.Codecs.
 Import ListNotations.
 Local Open Scope Z_scope.
 
@@ -123,17 +124,140 @@ Theorem url_de_dims_valued_rooms : forall cu vc skip allow al af rs url name wd 
 Proof. exact url_vrooms_dims_lemma. Qed.
 Print Assumptions url_de_dims_valued_rooms.
 
-(* re-encodability.  Full statement (NOT proved here; judged on the real code by the fuzz search
-   of harness/pC17.py): a value returned for a well-formed term is serialized again and its
-   canonical text decodes to the same value. *)
+(* ------------------------------------------------------------------ re-encodability *)
+(* The statement as first written: for EVERY well-formed term whatever deserialize_problem returns is
+   serialized again and its canonical text decodes to the same value.  It does NOT hold (next theorem);
+   it holds under the side condition [reenc_ok] (Codec/TotalReenc.v) - theorem de_reencodable - which all
+   puzzle codecs satisfy. *)
 Definition de_reencodable_statement : Prop :=
   forall c h w s p, wf c = true -> tupl_single c = true -> dec_ok c = true -> single c = true -> 0 <= h -> 0 <= w ->
     deserialize_problem c s h w = Ok (Some p) ->
     exists t, serialize_problem c p h w = Ok t /\ deserialize_problem c t h w = Ok (Some p).
 
-(* proved part: the combinator whose decoder used to return unencodable values.  Whatever
-   HexInt.deserialize returns lies in 0..4095, HexInt.serialize accepts it, and the canonical
-   text decodes to it again whatever follows *)
+(* witness (replayed on the Python code): Seq(OneOf(Dict([0], ["."]), IntSpaces(-1, 4, 2)), 3) decodes "a"
+   to [0, -1, -1]; serializing that fails (the Dict alternative takes the 0, no alternative takes a -1) *)
+Theorem de_reencodable_statement_refuted : ~ de_reencodable_statement.
+Proof. exact de_reencodable_unrestricted_false. Qed.
+Print Assumptions de_reencodable_statement_refuted.
+
+(* (1) leaves.  Every item a leaf decoder returns lies in the leaf's serialization domain
+   ([leaf_dom]; a space of IntSpaces(sp, mi, ms) with ms > 0 is the one exception, see sp_cov) ... *)
+Theorem leaf_decode_in_domain : forall e c s n items, wf c = true -> pleafmd c = true ->
+  de e c s = Ok (Some (n, items)) -> Forall (item_of c) items.
+Proof. exact leaf_de_dom. Qed.
+Print Assumptions leaf_decode_in_domain.
+
+(* ... and at a position holding an item v the serializer of Dict / Spaces / DecInt / HexInt / IntSpaces
+   raises nothing, returns None exactly when v is outside the domain, and otherwise consumes at
+   least one item and stays within the list *)
+Theorem leaf_serialize_total : forall e c d p v, wf c = true -> pleaf c = true -> nth_error d p = Some v ->
+  (ser e c (VList d) p = Ok None /\ leaf_dom c v = false) \/
+  (exists k s, ser e c (VList d) p = Ok (Some (S k, s)) /\ (p + S k <= length d)%nat /\
+               (single c = true -> k = 0%nat) /\ leaf_dom c v = true).
+Proof. exact leaf_ser_cases. Qed.
+Print Assumptions leaf_serialize_total.
+
+(* a leaf, alternatives of leaves, or MultiDigit ([sbase]): decoded items lie in the domain [sdom], and a
+   list of such items is serialized at EVERY position (so Seq.serialize's loop runs to the end) *)
+Theorem scalar_decode_in_domain : forall e c s n items, wf c = true -> sbase c = true ->
+  de e c s = Ok (Some (n, items)) -> Forall (fun v => sdom c v = true) items.
+Proof. exact sbase_de_dom. Qed.
+Print Assumptions scalar_decode_in_domain.
+
+Theorem scalar_serialize_total : forall e c d p, wf c = true -> sbase c = true ->
+  Forall (fun v => sdom c v = true) d -> (p < length d)%nat ->
+  exists k s, ser e c (VList d) p = Ok (Some (S k, s)) /\ (p + S k <= length d)%nat.
+Proof. exact sbase_ser_total. Qed.
+Print Assumptions scalar_serialize_total.
+
+(* (3) Rooms: whatever Rooms.deserialize returns - for ANY border bitmaps, redundant borders included -
+   is a canonical partition of the declared board (CombWf.canonical_rooms: every cell in exactly one
+   room, no empty room, rooms orthogonally connected, cells row-major, rooms by least cell) *)
+Theorem rooms_de_canonical : forall e skip allow s n items, de e (Rooms skip allow) s = Ok (Some (n, items)) ->
+  exists rs, items = [rooms_to_pv rs] /\ canonical_rooms (height e) (width e) rs.
+Proof. exact TotalReencRooms.rooms_de_canonical. Qed.
+Print Assumptions rooms_de_canonical.
+
+(* (2) all terms satisfying the side conditions - OneOf / Tupl / Seq / Grid / Rooms / ValuedRooms by
+   induction on the term: the decoded value is serialized (no None, no exception) and the canonical
+   text - which may differ from the decoded text - decodes to the same value *)
+Theorem de_reencodable : forall c h w s p, 1 <= h -> 1 <= w ->
+  wf c = true -> tupl_single c = true -> dec_ok c = true -> single c = true -> reenc_ok c = true ->
+  deserialize_problem c s h w = Ok (Some p) ->
+  exists t, serialize_problem c p h w = Ok t /\ deserialize_problem c t h w = Ok (Some p).
+Proof. exact de_reencodable_lemma. Qed.
+Print Assumptions de_reencodable.
+
+(* Combinator.serialize / deserialize form, any environment *)
+Theorem de_reencodable_comb : forall e c s n p, env_ok e ->
+  wf c = true -> tupl_single c = true -> dec_ok c = true -> single c = true -> reenc_ok c = true ->
+  de e c s = Ok (Some (n, [p])) ->
+  exists t, ser e c (VList [p]) 0 = Ok (Some (1%nat, t)) /\ de e c t = Ok (Some (length t, [p])).
+Proof. intros e c s n p He. exact (de_reencodable_gen e c s n p He (or_introl (rooms_canon_holds e))). Qed.
+Print Assumptions de_reencodable_comb.
+
+(* each part of the side condition is needed: terms satisfying everything else whose decoded value is
+   not serialized again (AssertionError, TypeError, a loop that never ends) or is serialized to the
+   text of another value *)
+Theorem reenc_ok_needed :
+  (std_ok W_space = true /\ reenc_ok W_space = false /\
+   deserialize_problem W_space (tx [97]%nat) 1 1 = Ok (Some (VList [VInt 0; VInt (-1); VInt (-1)])) /\
+   serialize_problem W_space (VList [VInt 0; VInt (-1); VInt (-1)]) 1 1 = Err AssertionError) /\
+  (std_ok W_md = true /\ reenc_ok W_md = false /\
+   deserialize_problem W_md (tx [50; 46]%nat) 1 1 = Ok (Some (VList [VInt 1; VInt 0; VInt 7])) /\
+   serialize_problem W_md (VList [VInt 1; VInt 0; VInt 7]) 1 1 = Err AssertionError) /\
+  (std_ok W_fix = true /\ reenc_ok W_fix = false /\
+   deserialize_problem W_fix (tx [120; 53]%nat) 1 1 = Ok (Some (VList [VInt 5])) /\
+   serialize_problem W_fix (VList [VInt 5]) 1 1 = Err OtherError) /\
+  (std_ok W_neg = true /\ reenc_ok W_neg = false /\
+   deserialize_problem W_neg [] 1 1 = Ok (Some (VList [])) /\
+   serialize_problem W_neg (VList []) 1 1 = Err AssertionError) /\
+  (std_ok W_gneg = true /\ reenc_ok W_gneg = false /\
+   deserialize_problem W_gneg (tx [53]%nat) 1 1 = Ok (Some (VList [])) /\
+   serialize_problem W_gneg (VList []) 1 1 = Err AssertionError) /\
+  (std_ok W_comp = true /\ reenc_ok W_comp = false /\
+   deserialize_problem W_comp (tx [98; 49; 50]%nat) 1 1 = Ok (Some (VTup [VList []; VList [VList [VInt 1; VInt 2]]])) /\
+   serialize_problem W_comp (VTup [VList []; VList [VList [VInt 1; VInt 2]]]) 1 1 = Err TypeError) /\
+  (std_ok W_val = true /\ reenc_ok W_val = false /\
+   deserialize_problem W_val (tx [120]%nat) 1 1 = Ok (Some (VList [VInt 1; VInt 2; VInt 3])) /\
+   serialize_problem W_val (VList [VInt 1; VInt 2; VInt 3]) 1 1 = Ok (tx [49; 50]%nat) /\
+   deserialize_problem W_val (tx [49; 50]%nat) 1 1 = Ok (Some (VList [VInt 1; VInt 2]))).
+Proof.
+  exact (conj reenc_needs_space_cover (conj reenc_needs_md_alone (conj reenc_needs_item_base
+        (conj reenc_needs_nonneg_count (conj reenc_needs_nonneg_sizes
+        (conj reenc_needs_leaf_alternatives reenc_needs_leaf_alternatives_value)))))).
+Qed.
+Print Assumptions reenc_ok_needed.
+
+(* (3) the puzzle codecs, unconditionally: every problem deserialize_problem returns for nurikabe, masyu,
+   slitherlink, sudoku, nurimisaki, heyawake, lits, norinori is serialized again, and the canonical text
+   decodes to it *)
+Theorem codecs_reencodable : forall c,
+  In c [NURIKABE_COMBINATOR; MASYU_COMBINATOR; SLITHERLINK_COMBINATOR; SUDOKU_COMBINATOR; NURIMISAKI_COMBINATOR;
+        HEYAWAKE_COMBINATOR; LITS_COMBINATOR; NORINORI_COMBINATOR] ->
+  forall s h w p, 1 <= h -> 1 <= w ->
+    deserialize_problem c s h w = Ok (Some p) ->
+    exists t, serialize_problem c p h w = Ok t /\ deserialize_problem c t h w = Ok (Some p).
+Proof. exact codecs_reencodable_lemma. Qed.
+Print Assumptions codecs_reencodable.
+
+Theorem grid_codecs_redecode : forall c,
+  In c [NURIKABE_COMBINATOR; MASYU_COMBINATOR; SLITHERLINK_COMBINATOR; SUDOKU_COMBINATOR; NURIMISAKI_COMBINATOR] ->
+  forall s h w p, 1 <= h -> 1 <= w ->
+    deserialize_problem c s h w = Ok (Some p) ->
+    exists t, serialize_problem c p h w = Ok t /\ deserialize_problem c t h w = Ok (Some p).
+Proof. exact grid_codecs_redecode_lemma'. Qed.
+Print Assumptions grid_codecs_redecode.
+
+(* yajilin (YajilinClue, a Combinator subclass): every declared size, zero included *)
+Theorem yajilin_reencodable : forall s h w p, 0 <= h -> 0 <= w ->
+  deserialize_problem_cu yajilin_custom YAJILIN_COMBINATOR s h w = Ok (Some p) ->
+  exists t, serialize_problem_cu yajilin_custom YAJILIN_COMBINATOR p h w = Ok t /\
+            deserialize_problem_cu yajilin_custom YAJILIN_COMBINATOR t h w = Ok (Some p).
+Proof. exact yajilin_reencodable_lemma. Qed.
+Print Assumptions yajilin_reencodable.
+
+(* earlier partial results, kept: HexInt alone; a decoded grid lies in the domain of C15's theorem *)
 Theorem de_reencodable_partial_hexint : forall s k l, hexint_de s = Ok (Some (k, l)) ->
   exists z t, l = [VInt z] /\ 0 <= z <= 4095 /\
     hexint_ser (VList [VInt z]) 0 = Ok (Some (1%nat, t)) /\
@@ -141,20 +265,9 @@ Theorem de_reencodable_partial_hexint : forall s k l, hexint_de s = Ok (Some (k,
 Proof. exact hexint_reencodable_lemma. Qed.
 Print Assumptions de_reencodable_partial_hexint.
 
-(* proved part, using C15's problem_roundtrip as a lemma: a decoded grid whose cell combinator is a
-   leaf or alternatives of leaves lies in the domain of the round-trip theorem, so IF it serializes,
-   the canonical text decodes to it again (that it does serialize is the part left to the search) *)
 Theorem de_reencodable_partial_grid : forall c1 s t h w p, 1 <= h -> 1 <= w -> flat c1 = true -> wf (Grid c1 None) = true ->
   deserialize_problem (Grid c1 None) s h w = Ok (Some p) ->
   serialize_problem (Grid c1 None) p h w = Ok t ->
   deserialize_problem (Grid c1 None) t h w = Ok (Some p).
 Proof. exact grid_redecode_lemma. Qed.
 Print Assumptions de_reencodable_partial_grid.
-
-Theorem grid_codecs_redecode_partial : forall c,
-  In c [NURIKABE_COMBINATOR; MASYU_COMBINATOR; SLITHERLINK_COMBINATOR; SUDOKU_COMBINATOR; NURIMISAKI_COMBINATOR] ->
-  forall s t h w p, 1 <= h -> 1 <= w ->
-    deserialize_problem c s h w = Ok (Some p) -> serialize_problem c p h w = Ok t ->
-    deserialize_problem c t h w = Ok (Some p).
-Proof. exact grid_codecs_redecode_lemma. Qed.
-Print Assumptions grid_codecs_redecode_partial.
